@@ -566,3 +566,86 @@ def callee_name(node):
         if ga:
             p = '<' + norm_path(ga[0]) + p[p.index(' as '):]
     return p
+
+
+def _generic_args(ty):
+    """top-level generic arguments of `Path<A, B>`"""
+    if '<' not in ty or not ty.endswith('>'):
+        return []
+    inner = ty[ty.index('<') + 1:-1]
+    out, depth, cur = [], 0, ''
+    for ch in inner:
+        if ch in '<([':
+            depth += 1
+        elif ch in '>)]':
+            depth -= 1
+        if ch == ',' and depth == 0:
+            out.append(cur.strip())
+            cur = ''
+        else:
+            cur += ch
+    if cur.strip():
+        out.append(cur.strip())
+    return out
+
+
+_NEST_CACHE = {}
+
+
+def nest_result_match(node):
+    """`match r { Ok(P1) => a, Ok(P2) => b, Err(p) => c }` read as `match r { Ok(v) => match v { P1 => a, P2 => b }, Err(p) => c }`
+    (and likewise with several Err arms): the same decision, spelled so that each level tests one constructor."""
+    if node.get('k') != 'Match' or node.get('src') != 'Normal' or len(node.get('arms', [])) < 3:
+        return node
+    key = id(node)
+    if key in _NEST_CACHE and _NEST_CACHE[key][0] is node:
+        return _NEST_CACHE[key][1]
+    out = _nest(node)
+    _NEST_CACHE[key] = (node, out)
+    return out
+
+
+def _nest(node):
+    ty = (node['scrut'].get('ty') or '').lstrip('&').strip()
+    if ty.startswith('mut '):
+        ty = ty[4:]
+    if not ty.startswith('std::result::Result<'):
+        return node
+    ga = _generic_args(ty)
+    if len(ga) != 2:
+        return node
+    groups = {'Ok': [], 'Err': []}
+    for a in node['arms']:
+        pt = a['pat']
+        if a.get('guard') is not None or pt.get('k') != 'PTupleStruct' or len(pt.get('pats', [])) != 1 or pt.get('dd') is not None:
+            return node
+        v = (pt.get('res') or {}).get('path', '').split('::')[-1]
+        if v not in groups:
+            return node
+        groups[v].append(a)
+    multi = [v for v in groups if len(groups[v]) > 1]
+    if len(multi) != 1 or len(groups['Ok' if multi[0] == 'Err' else 'Err']) != 1:
+        return node
+    v = multi[0]
+    for a in groups[v]:
+        sub = a['pat']['pats'][0]
+        if sub.get('k') not in ('PTupleStruct', 'PPath') or (sub.get('res') or {}).get('path', '').split('::')[-1] not in ('Ok', 'Err', 'Some', 'None'):
+            return node  # only a payload that is itself a Result / Option is given its own level
+    inner_ty = ga[0] if v == 'Ok' else ga[1]
+    first = groups[v][0]
+    sid = -(1000000 + (abs(hash(node.get('sp', ''))) % 1000000))
+    bind = {'k': 'Bind', 'name': '$n', 'id': sid, 'mode': 'BindingMode(No, Not)', 'ty': inner_ty}
+    inner = {'k': 'Match', 'src': 'Normal', 'scrut': {'k': 'Local', 'name': '$n', 'id': sid, 'ty': inner_ty, 'sp': (node.get('sp') or '') + '#n'},
+             'ty': node.get('ty'), 'sp': (node.get('sp') or '') + '#nest', 'tail_of': node.get('sp'),
+             'arms': [dict(a, pat=a['pat']['pats'][0]) for a in groups[v]]}
+    outer_arm = dict(first, pat=dict(first['pat'], pats=[bind]), body=inner)
+    arms = []
+    done = False
+    for a in node['arms']:
+        if a in groups[v]:
+            if not done:
+                arms.append(outer_arm)
+                done = True
+        else:
+            arms.append(a)
+    return dict(node, arms=arms)
